@@ -15,6 +15,8 @@ import (
 	"strings"
 	"sync"
 	"time"
+
+	"github.com/charmbracelet/x/term"
 )
 
 // VerifDetectOneMsg forwards to detectOneMsg.
@@ -271,3 +273,20 @@ func (v *VerifRenderer) State() VerifRendererState {
 
 // VerifProgramRestoreTerminalState forwards to restoreTerminalState.
 func VerifProgramRestoreTerminalState(p *Program) error { return p.restoreTerminalState() }
+
+// VerifPauseHook, when set, is called at the pause points of the package (see
+// verifPause) with the name of the point; it may block to hold a goroutine there.
+var VerifPauseHook func(where string)
+
+func verifPause(where string) {
+	if h := VerifPauseHook; h != nil {
+		h(where)
+	}
+}
+
+// VerifSetTTYInput makes the program believe that f is its input terminal with the
+// saved line-discipline state st (fault injection: a Restore that fails).
+func VerifSetTTYInput(p *Program, f term.File, st *term.State) {
+	p.ttyInput = f
+	p.previousTtyInputState = st
+}
